@@ -14,6 +14,9 @@
 #include <pmem.h>
 #include <puthread.h>
 
+/* a pboolean argument with the given truth value: ANY int whose truthiness is `want` (pboolean is a plain int;
+ * every non-zero value is a legitimate TRUE, e.g. `flags & 4` or -1) */
+static pboolean nd_pbool(_Bool want) { int v = ND_INT(); VASSUME((v != 0) == want); return (pboolean) v; }
 extern void p_uthread_init(void);
 extern void p_uthread_shutdown(void);
 
@@ -87,7 +90,7 @@ void harness(void) {
 #endif
   for (int i = 0; i < NTHR; i++) {
     te_next_slot = i + 1;
-    h[i] = p_uthread_create(thr_main, &body_end[i], TRUE, NULL);
+    h[i] = p_uthread_create(thr_main, &body_end[i], nd_pbool(1), NULL);
     VASSERT(h[i] != NULL, "create succeeds");
   }
   for (int i = 0; i < NTHR; i++) {
